@@ -303,6 +303,11 @@ def write_evidence(ctx, spec, cov, assumptions, violations):
     ev = {"property_id": ctx.pid, "tier": ctx.tier, "seed": ctx.seed, "level": "proof",
           "coverage": cov, "assumptions": assumptions, "wall_s": round(time.time() - ctx.t0, 2),
           "violations": violations}
+    if ctx.repo != "/repo":
+        # a run against a scratch worktree (seeded change, fix validation) must never overwrite the
+        # committed evidence, which describes /repo itself
+        json.dump(ev, open(os.path.join(ctx.work, "evidence.json"), "w"), indent=1)
+        return
     os.makedirs(os.path.join(VERIF, "evidence"), exist_ok=True)
     json.dump(ev, open(os.path.join(VERIF, "evidence", ctx.pid + ".json"), "w"), indent=1)
 
